@@ -209,26 +209,29 @@ CHECKS = {
 
 # additions after the first complete build (appended to the level text)
 ALSO = {
+    "C03": " Also: the same gate object re-read after a battery of read-only queries.",
+    "C05": " Also: operations on no qubits (global phases, plain and classically controlled).",
+    "C20": " Also: EngineJob's result waiting layered over every settled stream future (errors surface, results pass through, only StreamError polls).",
     "C01": " Also: user gates that implement only _unitary_, echo steps, every documented control-value form on the classical simulator.",
     "C02": " Also: the Clifford simulators (CH form, tableau sampler) with repeated keys and feed-forward; Pauli-product measurements; "
-           "nested repeated sub-circuits that re-use key names, on all simulators.",
-    "C04": " Also: Moments as values (operations on interleaved qubit ranges in shuffled order) and arbitrary channels.",
-    "C06": " Also: a 'merge anything connected' option set for the merge primitives and a verdict for outputs that lost every measurement.",
+           "nested repeated sub-circuits that re-use key names, on all simulators; the same run after its keys were renamed / prefixed; cirq.sample (the self-dispatching entry point).",
+    "C04": " Also: Moments as values (operations on interleaved qubit ranges in shuffled order), arbitrary channels, repeated and inverted CircuitOperation wrappers, qudit controls up to dimension 6.",
+    "C06": " Also: a 'merge anything connected' option set for the merge primitives, a verdict for outputs that lost every measurement, cirq.ControlledOperation (phase-only sub-operations) and user-defined channels in the input programs.",
     "C07": " Also: named two-qubit gates at integer powers and pairs of named gates alone on one pair; device circuits holding the same gate "
-           "with and without the tag that decides its gate family.",
+           "with and without the tag that decides its gate family; single-qubit gates at whole-number powers alone on their qubit.",
     "C08": " Also: the same gate on exchanged qubits (parameters snapped onto symmetry lattices), CliffordGate integer powers, "
-           "trace-distance bounds through control wrappers.",
+           "trace-distance bounds through control wrappers; commutes at every tolerance asked for (nearly commuting pairs); controlled operations through their action on a state; operands unchanged by the predicates.",
     "C09": " Also: arbitrary (complex, non-diagonal) channels, ThermalNoiseModel against its documented Lindblad operators, "
-           "InsertionNoiseModel identifier matching, device-derived models (NoiseModelFromNoiseProperties), qis measures.",
-    "C10": " Also: composed resolvers with overlapping keys, symbolic repetition counts resolving to negative integers.",
+           "InsertionNoiseModel identifier matching, device-derived models (NoiseModelFromNoiseProperties), qis measures, coherent noise gates, cirq.final_density_matrix(noise=).",
+    "C10": " Also: composed resolvers with overlapping keys, symbolic repetition counts resolving to negative integers, circuits derived (copy / + / radd / insert / slice ...) from a circuit whose parameter answers are already cached.",
     "C11": " Also: mapping arguments in random insertion order, arbitrary channels.",
     "C12": " Also: classically controlled sub-circuits, key maps that re-point control keys, tags at every depth, symbolic / replaced "
-           "repetition counts after arbitrary earlier queries, repeat-of-repeat id order and records, parent paths.",
-    "C13": " Also: multi-qubit CliffordGate on arbitrary positions of a larger register, every integer power.",
-    "C14": " Also: cirq.work.measure_observables on eigenstates (exact sampled means, both groupings, readout symmetrisation).",
-    "C15": " Also: the parameterized sqrt-iSWAP decompositions resolved at special values.",
+           "repetition counts after arbitrary earlier queries, repeat-of-repeat id order and records, parent paths, conditions on earlier records of a repeated key (index / bit mask), confusion maps inside blocks.",
+    "C13": " Also: multi-qubit CliffordGate on arbitrary positions of a larger register, every integer power; the state classes as values (copy isolation, collapsing and non-collapsing measurement).",
+    "C14": " Also: cirq.work.measure_observables on eigenstates (exact sampled means, both groupings, readout symmetrisation); one PauliSum through a history of in-place edits with queries in between.",
+    "C15": " Also: the parameterized sqrt-iSWAP decompositions resolved at special values; the known-gate Sycamore table probed with whole-number and negative powers.",
     "C16": " Also: zero / huge bitmasks, string tags spelling qubit ids, comparison aware of 32-bit literals and of gate value equality.",
-    "C17": " Also: echo operations (an earlier operation repeated with one parameter changed).",
+    "C17": " Also: echo operations (an earlier operation repeated with one parameter changed); Cirq's own unitary of the submitted circuit against the same reference.",
     "C18": " Also: cirq_google EngineResult views and JSON, ProcessorSampler batching against a fake processor, ValidatingSampler, sweeps "
            "spelled in mixed key order, results larger than the histogram's internal batch.",
     "C19": " Also: user gates with only _unitary_ (generic KAK fall-back) and keys measured repeatedly with different widths.",
